@@ -173,7 +173,7 @@ fn vals(r: &mut Rng, n: usize) -> Vec<u32> {
 }
 fn word(r: &mut Rng) -> String {
     let n = r.below(6) as usize;
-    let alpha = b"abcxyz019 ";
+    let alpha = b"abcxyz019_";
     let bytes: Vec<u8> = (0..n).map(|_| alpha[r.below(alpha.len() as u64) as usize]).collect();
     if bytes.is_empty() {
         "-".to_string()
